@@ -26,11 +26,11 @@ TEST = "^TestVerifFetcherRecord$"
 
 
 def design(ctx):
-    cfgs = ["Fetcher_MC_quick.cfg"]
+    cfgs = ["Fetcher_MC_quick_safety.cfg", "Fetcher_MC_live_quick.cfg"]
     if not ctx.quick:
-        cfgs += ["Fetcher_MC_w2.cfg", "Fetcher_MC_k3.cfg"]
+        cfgs += ["Fetcher_MC_quick.cfg", "Fetcher_MC_w2.cfg", "Fetcher_MC_k3.cfg"]
     for cfg in cfgs:
-        r = vlib.tlc_mc(ctx, "Fetcher_MC", cfg, label=cfg[:-4], coverage=(cfg == "Fetcher_MC_quick.cfg"),
+        r = vlib.tlc_mc(ctx, "Fetcher_MC", cfg, label=cfg[:-4], coverage=(cfg == "Fetcher_MC_quick_safety.cfg"),
                         allow_zero=("Terminating",), timeout=3000)
         if r["violated"]:
             raise vlib.Infra("design step: %s violates %s" % (cfg, r["violated"]))
